@@ -183,3 +183,58 @@ def assigned_names(fn_node: ast.AST) -> Dict[str, List[ast.AST]]:
                 if it.optional_vars is not None:
                     tgt(it.optional_vars, n)
     return out
+
+
+def single_defs(fn_node: ast.AST, params=()) -> Dict[str, ast.AST]:
+    """local name -> its unique defining expression (plain `x = e` or element-wise tuple unpacking `x, y = e1, e2`);
+    names that are parameters, loop / comprehension targets, augmented or defined more than once are excluded"""
+    cnt: Dict[str, int] = {}
+    val: Dict[str, ast.AST] = {}
+    bad: Set[str] = set(params)
+
+    def bump(name, v):
+        cnt[name] = cnt.get(name, 0) + 1
+        if v is not None:
+            val[name] = v
+        else:
+            bad.add(name)
+
+    for n in walk_local(fn_node):
+        if isinstance(n, ast.Assign):
+            for t in n.targets:
+                if isinstance(t, ast.Name):
+                    bump(t.id, n.value)
+                elif isinstance(t, (ast.Tuple, ast.List)):
+                    vals = n.value.elts if isinstance(n.value, (ast.Tuple, ast.List)) and len(n.value.elts) == len(t.elts) else None
+                    for i, x in enumerate(t.elts):
+                        if isinstance(x, ast.Name):
+                            bump(x.id, vals[i] if vals else None)
+        elif isinstance(n, (ast.AugAssign, ast.AnnAssign)):
+            if isinstance(n.target, ast.Name):
+                bump(n.target.id, None)
+        elif isinstance(n, (ast.For, ast.AsyncFor, ast.comprehension)):
+            for x in ast.walk(n.target):
+                if isinstance(x, ast.Name):
+                    bump(x.id, None)
+        elif isinstance(n, ast.NamedExpr):
+            bump(n.target.id, None)
+    return {k: v for k, v in val.items() if cnt.get(k) == 1 and k not in bad}
+
+
+def expand_locals(fn_node: ast.AST, e: ast.AST, params=(), depth: int = 4, defs: Optional[Dict[str, ast.AST]] = None) -> ast.AST:
+    """deep copy of `e` with single-definition locals replaced by their defining expressions"""
+    import copy as _copy
+
+    if defs is None:
+        defs = single_defs(fn_node, params)
+
+    class R(ast.NodeTransformer):
+        def __init__(self, d):
+            self.d = d
+
+        def visit_Name(self, n):
+            if isinstance(n.ctx, ast.Load) and n.id in defs and self.d > 0:
+                return R(self.d - 1).visit(_copy.deepcopy(defs[n.id]))
+            return n
+
+    return R(depth).visit(_copy.deepcopy(e))
